@@ -150,6 +150,12 @@ class TT():
                 raise InvalidArguments("Check the ranks and the mode size.")
 
             self.cores = list(source)
+            if len({c.dtype for c in self.cores}) > 1:
+                # cores of different dtypes (e.g. the Kronecker product of a real and a complex tensor): one dtype per object
+                common = self.cores[0].dtype
+                for c in self.cores[1:]:
+                    common = tn.promote_types(common, c.dtype)
+                self.cores = [c.to(common) for c in self.cores]
             self.__R = R
             self.__N = N
             if len(M) == len(N):
